@@ -20,6 +20,10 @@ struct PrintResult {
    int indent_after = 0;
    bool bad = false;
    std::string numbers;          // rendering of sentinel numbers through the same printer afterwards
+   // the same thing printed once more through the same Printer after the sink was repaired (only when asked for)
+   bool again_done = false;
+   Outcome again = Returned;
+   std::string again_what;
 };
 
 struct StreamCfg {
@@ -28,6 +32,7 @@ struct StreamCfg {
    bool throwing = false;
    bool exceptions = false;
    bool locations = false;
+   bool reuse_after_failure = false;    // if the sink failed, repair it and print once more with the same Printer
 };
 
 // Print one thing through a fresh Printer on a simulated stream.
@@ -53,6 +58,22 @@ PrintResult print_with(const ipr::Lexicon& lex, const StreamCfg& cfg, F emit)
          pp << ' ' << ipr::Mapping_level{ 255 } << ' ' << ipr::Decl_position{ 4095 };
       }
       catch (const std::logic_error& e) { r.outcome = PrintResult::Refused; sim::HarnessScope h; r.what = e.what(); }
+      catch (const sim::SimStreamFailure&) { r.outcome = PrintResult::SinkThrew; }
+      catch (const std::ios_base::failure&) { r.outcome = PrintResult::SinkThrew; }
+      r.after = sim::state_of(os);
+      r.bad = os.bad();
+      { sim::HarnessScope h; r.text = buf.data; }
+      if (cfg.reuse_after_failure and (r.outcome == PrintResult::SinkThrew or r.bad)) {
+         // the client repairs its stream and prints the same thing again with the Printer it already has
+         { sim::HarnessScope h; buf.capacity = -1; buf.data.clear(); }
+         os.clear();
+         r.again_done = true;
+         try { emit(pp); }
+         catch (const std::logic_error& e) { r.again = PrintResult::Refused; sim::HarnessScope h; r.again_what = e.what(); }
+         catch (const sim::SimStreamFailure&) { r.again = PrintResult::SinkThrew; }
+         catch (const std::ios_base::failure&) { r.again = PrintResult::SinkThrew; }
+      }
+      return r;
    }
    catch (const sim::SimStreamFailure&) { r.outcome = PrintResult::SinkThrew; }
    catch (const std::ios_base::failure&) { r.outcome = PrintResult::SinkThrew; }
@@ -235,6 +256,7 @@ struct C17 : Scenario {
       o1.owner = 0; o2.owner = 1;
       o1.check_creation = o2.check_creation = false;
       o1.track_unification = o2.track_unification = false;
+      sim::heap::set_fill(1, sim::heap::fill(0) % sim::heap::FillCount + 1);      // what fresh memory contains differs between the two Lexicons
       sim::heap::set_policy(p1);
       World w1(ctx, o1, "C17");
       sim::heap::set_policy(p2);
@@ -379,7 +401,7 @@ struct C17 : Scenario {
 
 // ------------------------------------------------------------------------------ C18
 enum P18 { R_ops, R_prints, R_returned, R_refused, R_sink_threw, R_bytes, R_flag_checks, R_decimal_checks, R_control_checks, R_indent_checks, R_kinds_skipped_known,
-           R_fault_capacity, R_fault_throwing, R_fault_fired, R_styles_nondefault, R_literal_ctrl_bytes, R_enclosures, R_nesting, R_units, R_entry0, R_entry1, R_entry2, R_entry3, R_too_large, R_count };
+           R_fault_capacity, R_fault_throwing, R_fault_fired, R_styles_nondefault, R_literal_ctrl_bytes, R_enclosures, R_nesting, R_units, R_entry0, R_entry1, R_entry2, R_entry3, R_too_large, R_reprints, R_count };
 
 struct C18 : Scenario {
    const char* id() const override { return "C18"; }
@@ -398,7 +420,7 @@ struct C18 : Scenario {
       return { "ops", "prints", "prints_returned", "prints_refused_logic_error", "prints_sink_threw", "bytes_printed", "stream_state_checks", "decimal_checks", "control_byte_checks", "indent_checks",
                "opt.prints_skipped_known_finding", "fault.stream_fails_after_n_bytes", "fault.stream_throws", "fault.stream_failure_fired", "nondefault_initial_stream_state", "spellings_with_control_bytes",
                "enclosures", "opt.deep_statement_nesting", "units_printed", "entry.xpr_decl", "entry.xpr_stmt", "entry.xpr_type", "entry.xpr_expr",
-               "opt.prints_left_out_unfolded_size_over_limit" };
+               "opt.prints_left_out_unfolded_size_over_limit", "fault.reprints_through_the_same_printer_after_sink_failure" };
    }
    std::vector<std::string> assumptions() const override
    {
@@ -486,6 +508,7 @@ struct C18 : Scenario {
       cfg.throwing = plan.get("throwing", 0) != 0;
       cfg.exceptions = plan.get("exceptions", 0) != 0;
       const bool faulty_sink = cfg.capacity >= 0;
+      cfg.reuse_after_failure = faulty_sink;
       if (faulty_sink) ctx.probe(cfg.throwing ? R_fault_throwing : R_fault_capacity);
       if (cfg.style % 8 != 0) ctx.probe(R_styles_nondefault);
       // control bytes occurring in spellings of the graph
@@ -578,6 +601,24 @@ struct C18 : Scenario {
                if (ctx.verbose) ctx.event("print %s loc=%d -> %zu bytes %s", key.c_str(), loc, r.text.size(), outcome_tag(r).c_str());
                else ctx.event("print %s %zu %d", key.c_str(), r.text.size(), int(r.outcome));
                if (Verdict v = judge(r, key); not v) return v;
+               if (r.again_done) {
+                  // whether a construct is supported does not depend on what the Printer went through before: the reprint through the
+                  // same Printer on the repaired stream ends the way a print through a fresh Printer on a healthy stream does
+                  ctx.probe(R_reprints);
+                  StreamCfg healthy = cfg;
+                  healthy.capacity = -1; healthy.throwing = false; healthy.reuse_after_failure = false;
+                  PrintResult ref;
+                  switch (en) {
+                  case EN_decl: ref = print_with(*w.lex, healthy, [&](ipr::Printer& pp) { pp << ipr::xpr_decl(*k.e, true); }); break;
+                  case EN_stmt: ref = print_with(*w.lex, healthy, [&](ipr::Printer& pp) { pp << ipr::xpr_stmt(*k.e); }); break;
+                  case EN_type: ref = print_with(*w.lex, healthy, [&](ipr::Printer& pp) { pp << ipr::xpr_type(*k.t); }); break;
+                  default: ref = print_with(*w.lex, healthy, [&](ipr::Printer& pp) { pp << ipr::xpr_expr(*k.e); }); break;
+                  }
+                  if (ref.outcome != r.again and (ref.outcome == PrintResult::Returned or ref.outcome == PrintResult::Refused))
+                     return Verdict::fail("C18/reprint-after-sink-failure/" + key, "after the stream failed and was repaired, printing the same node through the same Printer " +
+                                          std::string(r.again == PrintResult::Refused ? "throws logic_error (" + r.again_what + ")" : r.again == PrintResult::Returned ? "completes" : "fails in the sink") +
+                                          ", a fresh Printer " + (ref.outcome == PrintResult::Refused ? "refuses it" : "prints it"));
+               }
             }
          }
       }
